@@ -195,7 +195,8 @@ theorem bitIn_of_append_lt {c : List Block} {x : Block} {b i : Nat} (hb : b < c.
 /-- A Store from a good node — completed or cut short by a crash after its commit — leaves a
 good node for the extended chain. -/
 theorem store_good {W : Nat} (hW : 0 < W) (fx : Fixes) {c : List Block} {n : Node} {b : Block}
-    (hg : Good W c n) (hn : NextBlock c n.disk b) (ft : Fault) (hft : ∀ k, ft ≠ .failAt k) :
+    (hg : Good W c n) (hn : NextBlock c n.disk b) (ft : Fault)
+    (hft : ft = .none ∨ ∃ k, ft = .crashAfter k) :
     Good W (c ++ [b]) (exec W fx n (.store b) ft).1 := by
   obtain ⟨hg1, f, hmem, hf⟩ := ensureInit_good' hW hg
   have hck := ensureInit_chainKeys W n
@@ -213,7 +214,9 @@ theorem store_good {W : Nat} (hW : 0 < W) (fx : Fixes) {c : List Block} {n : Nod
     cases ft with
     | none => simp only [exec, plan, storePlan, h1, h2, h3, if_false, hmem, hins, applyCommits,
         List.foldl_cons, List.foldl_nil]
-    | failAt k => exact absurd rfl (hft k)
+    | failAt k => rcases hft with h | ⟨_, h⟩ <;> cases h
+    | failInit => rcases hft with h | ⟨_, h⟩ <;> cases h
+    | crashInit => rcases hft with h | ⟨_, h⟩ <;> cases h
     | crashAfter k => simp only [exec, plan, storePlan, h1, h2, h3, if_false, hmem, hins, applyCommits,
         List.take_succ_cons, List.take_nil, List.foldl_cons, List.foldl_nil]
   have hmemOK : MemOK W (c ++ [b]) (exec W fx n (.store b) ft).1.mem := by
@@ -221,7 +224,9 @@ theorem store_good {W : Nat} (hW : 0 < W) (fx : Fixes) {c : List Block} {n : Nod
     | none =>
       simp only [exec, plan, storePlan, h1, h2, h3, if_false, hmem, hins, memAfter]
       exact hf'
-    | failAt k => exact absurd rfl (hft k)
+    | failAt k => rcases hft with h | ⟨_, h⟩ <;> cases h
+    | failInit => rcases hft with h | ⟨_, h⟩ <;> cases h
+    | crashInit => rcases hft with h | ⟨_, h⟩ <;> cases h
     | crashAfter k => simp [exec, MemOK]
   -- lookups of window / snapshot keys after the batch
   have hwin : ∀ lo, applyBatch (ensureInit W n).disk (blockWrites b ++ ws) (.win lo) =
